@@ -5,6 +5,7 @@ package main
 import (
 	"fmt"
 	"go/token"
+	"go/types"
 	"sort"
 	"strings"
 
@@ -69,41 +70,73 @@ func markOnce(c *Ctx, spec string) {
 		return
 	}
 	fname := shortName(f)
+	tprm := paramOfType(f, "time.Time")
 	n := 0
-	for _, b := range f.Blocks {
-		for _, in := range b.Instrs {
-			st, ok := in.(*ssa.Store)
-			if !ok {
-				continue
-			}
-			fa, ok := st.Addr.(*ssa.FieldAddr)
-			if !ok || fa.X != ssa.Value(f.Params[0]) || fieldName(fa.X.Type(), fa.Field) != "MarkedPast" {
-				continue
-			}
-			n++
-			guarded := false
-			for _, ce := range dominatingConds(b) {
-				if bo, ok := ce.Cond.(*ssa.BinOp); ok && isNilConst(bo.Y) && canon(bo.X) == "*("+canon(fa)+")" {
-					if (bo.Op == token.EQL && ce.Val) || (bo.Op == token.NEQ && !ce.Val) {
-						guarded = true
+	for _, g := range c.regionOf(f) {
+		if fnPkgPath(g) != fnPkgPath(f) {
+			continue
+		}
+		for _, b := range g.Blocks {
+			for _, in := range b.Instrs {
+				st, ok := in.(*ssa.Store)
+				if !ok {
+					continue
+				}
+				fa, ok := st.Addr.(*ssa.FieldAddr)
+				if !ok || fieldName(fa.X.Type(), fa.Field) != "MarkedPast" || typeName(fa.X.Type()) != typeName(f.Params[0].Type()) || g != f {
+					continue
+				}
+				if isNilConst(st.Val) {
+					continue
+				}
+				n++
+				guarded := false
+				for _, ce := range dominatingConds(b) {
+					if bo, ok := ce.Cond.(*ssa.BinOp); ok && isNilConst(bo.Y) && canon(bo.X) == "*("+canon(fa)+")" {
+						if (bo.Op == token.EQL && ce.Val) || (bo.Op == token.NEQ && !ce.Val) {
+							guarded = true
+						}
 					}
 				}
-			}
-			// value: address of the feed-time parameter's copy
-			okVal := false
-			if a, isAlloc := st.Val.(*ssa.Alloc); isAlloc {
-				for _, sv := range cellStores(a) {
-					if prm, isP := sv.(*ssa.Parameter); isP && prm == f.Params[1] {
-						okVal = true
+				// value: address of a copy of the feed-time parameter
+				okVal := false
+				if a, isAlloc := st.Val.(*ssa.Alloc); isAlloc && tprm != nil {
+					for _, sv := range cellStores(a) {
+						if prm, isP := sv.(*ssa.Parameter); isP && prm == tprm {
+							okVal = true
+						}
 					}
 				}
+				c.Check(guarded && okVal, "MARK", fname, "marked past only once, with the feed's time", p.ipos(st), "MarkedPast = &feedCreatedAt only on the MarkedPast == nil edge", "an entry that is already marked past can be re-stamped (the time of the first feed that no longer reported it is lost), or the stamp is not the feed's time")
 			}
-			c.Check(guarded && okVal, "MARK", fname, "marked past only once, with the feed's time", p.ipos(st), "MarkedPast = &feedCreatedAt only on the MarkedPast == nil edge", "an entry that is already marked past can be re-stamped (the time of the first feed that no longer reported it is lost), or the stamp is not the feed's time")
 		}
 	}
 	if n == 0 {
 		c.Violated("MARK", fname, "marks past", p.pos(f.Pos()), "markPast never sets MarkedPast")
 	}
+}
+
+// bindReq: what the bound expression of a stored value must and must not mention.
+type bindReq struct {
+	all  []string
+	none []string
+}
+
+func (r bindReq) ok(e string) bool { return containsAll(e, r.all...) && !containsAny(e, r.none...) }
+
+// headerLoopsOver: the loops of fn whose header tests an index against len(X) with X a load of a field named fld.
+func headerLoopsOver(fn *ssa.Function, fld string) []*Loop {
+	var out []*Loop
+	for _, l := range naturalLoops(fn) {
+		for _, in := range l.Header.Instrs {
+			if bo, ok := in.(*ssa.BinOp); ok && bo.Op == token.LSS {
+				if lx, ok := lenOf(bo.Y); ok && strings.HasSuffix(canon(lx), "."+fld+")") {
+					out = append(out, l)
+				}
+			}
+		}
+	}
+	return out
 }
 
 func runJournalStopTimes(c *Ctx) {
@@ -115,13 +148,14 @@ func runJournalStopTimes(c *Ctx) {
 	if f := c.anchor("journal:(*StopTime).update"); f != nil {
 		fname := shortName(f)
 		all, _ := storesOnAllPaths(f, f.Params[0], f.Blocks[0])
-		want := map[string][]string{
-			"StopID":        {"param:stopTimeUpdate"},
-			"ArrivalTime":   {"GetArrival(param:stopTimeUpdate).Time"},
-			"DepartureTime": {"GetDeparture(param:stopTimeUpdate).Time"},
-			"Track":         {"param:stopTimeUpdate.NyctTrack"},
-			"LastObserved":  {"param:feedCreatedAt"},
-			"MarkedPast":    {"const:nil"},
+		const U = "param:<gtfs.StopTimeUpdate>"
+		want := map[string]bindReq{
+			"StopID":        {[]string{U}, []string{"Arrival", "Departure", "NyctTrack"}},
+			"ArrivalTime":   {[]string{U, "Arrival", ".Time"}, []string{"Departure", "Delay"}},
+			"DepartureTime": {[]string{U, "Departure", ".Time"}, []string{"Arrival", "Delay"}},
+			"Track":         {[]string{U + ".NyctTrack"}, nil},
+			"LastObserved":  {[]string{"param:<time.Time>"}, []string{U}},
+			"MarkedPast":    {[]string{"const:nil"}, []string{"param:"}},
 		}
 		st := structOf(f.Params[0].Type())
 		for i := 0; i < st.NumFields(); i++ {
@@ -132,17 +166,12 @@ func runJournalStopTimes(c *Ctx) {
 				continue
 			}
 			expr := b.bind(s.Val)
-			okB := true
-			for _, w := range want[field] {
-				if !strings.Contains(expr, w) {
-					okB = false
-				}
-			}
-			if _, known := want[field]; !known {
+			req, known := want[field]
+			if !known {
 				c.Note("StopTime.%s has no binding oracle (unchecked): %s", field, clip(expr, 80))
 				continue
 			}
-			c.Check(okB, "UPD", fname, "StopTime."+field+" refreshed by every update", p.ipos(s), field+" <- "+clip(expr, 80), fmt.Sprintf("StopTime.%s is taken from %s (expected %v)", field, clip(expr, 100), want[field]))
+			c.Check(req.ok(expr), "UPD", fname, "StopTime."+field+" refreshed by every update", p.ipos(s), field+" <- "+clip(expr, 80), fmt.Sprintf("StopTime.%s is taken from %s (expected to mention %v and none of %v)", field, clip(expr, 100), req.all, req.none))
 		}
 	}
 	// J3: Trip.update applies the partition
@@ -154,29 +183,17 @@ func runJournalStopTimes(c *Ctx) {
 		return
 	}
 	fname := shortName(tu)
-	loops := naturalLoops(tu)
-	type loopUse struct {
-		over string // past | updated | new
-		l    *Loop
+	ps := partitionShapeOf(cp)
+	feedTime := paramOfType(tu, "time.Time")
+	if ps == nil || feedTime == nil {
+		c.Undecided("PART", fname, "partition shape", p.pos(cp.Pos()), "the partition value is no longer {entries before, aligned pairs, remaining updates}, or Trip.update has no single feed-time parameter: the structural clauses cannot be stated")
+		return
 	}
-	var uses []loopUse
-	for _, l := range loops {
-		for _, in := range l.Header.Instrs {
-			if bo, ok := in.(*ssa.BinOp); ok && bo.Op == token.LSS {
-				if lx, ok := lenOf(bo.Y); ok {
-					s := canon(lx)
-					for _, f := range []string{"past", "updated", "new"} {
-						if strings.HasSuffix(s, "."+f+")") {
-							uses = append(uses, loopUse{f, l})
-						}
-					}
-				}
-			}
+	first := func(ls []*Loop) *Loop {
+		if len(ls) == 0 {
+			return nil
 		}
-	}
-	byField := map[string]*Loop{}
-	for _, u := range uses {
-		byField[u.over] = u.l
+		return ls[0]
 	}
 	callOnAllTrips := func(l *Loop, callee *ssa.Function, argOK func(call *ssa.Call) bool) (bool, int) {
 		ok := true
@@ -198,10 +215,10 @@ func runJournalStopTimes(c *Ctx) {
 		})
 		return ok, n
 	}
-	if l := byField["past"]; l != nil {
+	if l := first(headerLoopsOver(tu, ps.past)); l != nil {
 		ok, n := callOnAllTrips(l, stMark, func(call *ssa.Call) bool {
 			ia, isIA := call.Call.Args[0].(*ssa.IndexAddr)
-			return isIA && strings.HasSuffix(canon(ia.X), ".past)") && call.Call.Args[1] == ssa.Value(tu.Params[2])
+			return isIA && strings.HasSuffix(canon(ia.X), "."+ps.past+")") && call.Call.Args[1] == ssa.Value(feedTime)
 		})
 		// nothing else touches the elements of p.past
 		clean := true
@@ -214,26 +231,25 @@ func runJournalStopTimes(c *Ctx) {
 				}
 			}
 		}
-		c.Check(ok && clean && n > 0, "PART", fname, "entries before the update's first stop are only marked past", p.pos(l.Header.Instrs[0].Pos()), "every element of p.past gets markPast(feed time) and nothing else", "an entry that precedes the update's first stop is modified other than by marking it past, or is not marked on some path")
+		c.Check(ok && clean && n > 0, "PART", fname, "entries before the update's first stop are only marked past", p.pos(l.Header.Instrs[0].Pos()), "every element of the partition's prefix gets markPast(feed time) and nothing else", "an entry that precedes the update's first stop is modified other than by marking it past, or is not marked on some path")
 	} else {
-		c.Violated("PART", fname, "entries before the update's first stop are only marked past", p.pos(tu.Pos()), "no loop over p.past")
+		c.Violated("PART", fname, "entries before the update's first stop are only marked past", p.pos(tu.Pos()), "no loop over the partition's prefix")
 	}
-	if l := byField["updated"]; l != nil {
+	if l := first(headerLoopsOver(tu, ps.upd)); l != nil {
 		ok, n := callOnAllTrips(l, stUpdate, func(call *ssa.Call) bool {
-			return strings.HasSuffix(canon(call.Call.Args[0]), ".existing)") && strings.HasSuffix(canon(call.Call.Args[1]), ".update)") && call.Call.Args[2] == ssa.Value(tu.Params[2])
+			return strings.HasSuffix(canon(call.Call.Args[0]), "."+ps.existing+")") && strings.HasSuffix(canon(call.Call.Args[1]), "."+ps.updateField+")") && call.Call.Args[2] == ssa.Value(feedTime)
 		})
-		c.Check(ok && n > 0, "PART", fname, "every aligned entry is refreshed from its update", p.pos(l.Header.Instrs[0].Pos()), "existing.update(update, feed time) on every trip around the loop over p.updated", "an aligned entry can be left without StopTime.update on some path (a fast path that skips it also skips clearing MarkedPast and the other fields)")
+		c.Check(ok && n > 0, "PART", fname, "every aligned entry is refreshed from its update", p.pos(l.Header.Instrs[0].Pos()), "existing.update(update, feed time) on every trip around the loop over the aligned pairs", "an aligned entry can be left without StopTime.update on some path (a fast path that skips it also skips clearing MarkedPast and the other fields)")
 	} else {
-		c.Violated("PART", fname, "every aligned entry is refreshed from its update", p.pos(tu.Pos()), "no loop over p.updated")
+		c.Violated("PART", fname, "every aligned entry is refreshed from its update", p.pos(tu.Pos()), "no loop over the aligned pairs")
 	}
-	if l := byField["new"]; l != nil {
+	if l := first(headerLoopsOver(tu, ps.nw)); l != nil {
 		ok, n := callOnAllTrips(l, stUpdate, func(call *ssa.Call) bool {
 			ia, isIA := call.Call.Args[1].(*ssa.IndexAddr)
-			if !isIA || !strings.HasSuffix(canon(ia.X), ".new)") {
+			if !isIA || !strings.HasSuffix(canon(ia.X), "."+ps.nw+")") {
 				return false
 			}
-			r, _ := isRangeIndexOver(ia.Index, ia.X)
-			return r || rangeIndexSeq(ia.Index) != nil
+			return rangeIndexSeq(ia.Index) != nil
 		})
 		// and appended at the tail
 		tail := false
@@ -244,116 +260,222 @@ func runJournalStopTimes(c *Ctx) {
 				}
 			}
 		}
-		c.Check(ok && tail && n > 0, "PART", fname, "stops not yet in the journal are appended in update order", p.pos(l.Header.Instrs[0].Pos()), "for i in p.new: a fresh StopTime updated from p.new[i] is appended at the tail", "new stop times are not appended one per remaining update, in order, at the tail")
+		c.Check(ok && tail && n > 0, "PART", fname, "stops not yet in the journal are appended in update order", p.pos(l.Header.Instrs[0].Pos()), "for i over the remaining updates: a fresh StopTime updated from update i is appended at the tail", "new stop times are not appended one per remaining update, in order, at the tail")
 	} else {
-		c.Violated("PART", fname, "stops not yet in the journal are appended in update order", p.pos(tu.Pos()), "no loop over p.new")
+		c.Violated("PART", fname, "stops not yet in the journal are appended in update order", p.pos(tu.Pos()), "no loop over the remaining updates")
 	}
 	// trim bound
 	okTrim := false
 	for _, blk := range tu.Blocks {
 		for _, in := range blk.Instrs {
 			if st, ok := in.(*ssa.Store); ok && strings.HasSuffix(canon(st.Addr), ".StopTimes") {
-				if sl, ok := st.Val.(*ssa.Slice); ok && sl.Low == nil && sl.High != nil {
-					d := descr(sl.High)
-					if d == "len(p.past)+len(p.updated)" && canon(sl.X) == "*("+canon(st.Addr)+")" {
-						okTrim = true
-					}
+				if sl, ok := st.Val.(*ssa.Slice); ok && isPartitionTrim(sl, ps) && canon(sl.X) == "*("+canon(st.Addr)+")" {
+					okTrim = true
 				}
 			}
 		}
 	}
-	c.Check(okTrim, "PART", fname, "list trimmed to past + aligned entries", p.pos(tu.Pos()), "trip.StopTimes = trip.StopTimes[:len(p.past)+len(p.updated)]", "the list is trimmed to something other than len(p.past)+len(p.updated): passed stops can be dropped or stale entries kept")
+	c.Check(okTrim, "PART", fname, "list trimmed to past + aligned entries", p.pos(tu.Pos()), "trip.StopTimes = trip.StopTimes[:len(prefix)+len(aligned pairs)]", "the list is trimmed to something other than len(prefix)+len(aligned pairs): passed stops can be dropped or stale entries kept")
 	// the partition comes from createPartition(trip.StopTimes, update's StopTimeUpdates)
 	okCall := false
 	for _, blk := range tu.Blocks {
 		for _, in := range blk.Instrs {
 			if call, ok := in.(*ssa.Call); ok && staticCallee(call) == cp {
 				a0, a1 := b.bind(call.Call.Args[0]), b.bind(call.Call.Args[1])
-				okCall = strings.HasSuffix(a0, "param:trip.StopTimes") && strings.HasSuffix(a1, "param:tripUpdate.StopTimeUpdates")
+				okCall = strings.HasSuffix(a0, "param:<journal.Trip>.StopTimes") && strings.HasSuffix(a1, "param:<gtfs.Trip>.StopTimeUpdates")
 			}
 		}
 	}
 	c.Check(okCall, "PART", fname, "partition of the journal's list against this update", p.pos(tu.Pos()), "createPartition(trip.StopTimes, tripUpdate.StopTimeUpdates)", "the partition is not computed from the trip's current list and this update's stop time updates")
 	// J4: createPartition
-	runPartitionShape(c, cp, b)
+	runPartitionShape(c, cp, ps, b)
 }
 
-func runPartitionShape(c *Ctx, cp *ssa.Function, b *binder) {
+// isPartitionTrim: s[:len(P.prefix)+len(P.pairs)] for a partition value P.
+func isPartitionTrim(sl *ssa.Slice, ps *partShape) bool {
+	if sl.Low != nil || sl.High == nil {
+		return false
+	}
+	add, ok := sl.High.(*ssa.BinOp)
+	if !ok || add.Op != token.ADD {
+		return false
+	}
+	lx, ok1 := lenOf(add.X)
+	ly, ok2 := lenOf(add.Y)
+	if !ok1 || !ok2 {
+		return false
+	}
+	a, b := canon(lx), canon(ly)
+	isP := func(s, f string) bool { return strings.HasSuffix(s, "."+f+")") }
+	return (isP(a, ps.past) && isP(b, ps.upd)) || (isP(a, ps.upd) && isP(b, ps.past))
+}
+
+// searchLeaf: one way the position of the first updated stop is obtained.
+type searchLeaf struct {
+	idx   ssa.Value                    // the value (a constant 0 or a loop index)
+	seqOK bool                         // the loop scans the whole journal list from its first entry
+	fn    *ssa.Function                // where the loop lives (createPartition or an extracted helper)
+	args  map[*ssa.Parameter]ssa.Value // helper parameter -> argument at the call in createPartition
+}
+
+// searchLeaves expands the high bound of the prefix: phis, and the results of same-package helpers.
+func searchLeaves(c *Ctx, v ssa.Value, stopTimes ssa.Value, fn *ssa.Function, args map[*ssa.Parameter]ssa.Value, d int, out *[]searchLeaf, seen map[ssa.Value]bool) {
+	if d > 6 || seen[v] {
+		return
+	}
+	seen[v] = true
+	switch x := v.(type) {
+	case *ssa.Phi:
+		for _, e := range x.Edges {
+			searchLeaves(c, e, stopTimes, fn, args, d+1, out, seen)
+		}
+	case *ssa.Call:
+		cal := x.Call.StaticCallee()
+		if cal != nil && !x.Call.IsInvoke() && c.P.isModuleFn(cal) && len(cal.Blocks) > 0 && args == nil {
+			m := map[*ssa.Parameter]ssa.Value{}
+			var seqParam ssa.Value
+			for k, a := range x.Call.Args {
+				if k < len(cal.Params) {
+					m[cal.Params[k]] = a
+					if a == stopTimes {
+						seqParam = cal.Params[k]
+					}
+				}
+			}
+			for _, blk := range cal.Blocks {
+				if ret, ok := blk.Instrs[len(blk.Instrs)-1].(*ssa.Return); ok && len(ret.Results) == 1 {
+					searchLeaves(c, ret.Results[0], seqParam, cal, m, d+1, out, seen)
+				}
+			}
+			return
+		}
+		*out = append(*out, searchLeaf{idx: v, fn: fn, args: args})
+	default:
+		lf := searchLeaf{idx: v, fn: fn, args: args}
+		if k, ok := constInt(v); ok && k == 0 {
+			lf.seqOK = true
+		} else if s := rangeIndexSeq(v); s != nil && stopTimes != nil && s == stopTimes {
+			lf.seqOK = true
+		}
+		*out = append(*out, lf)
+	}
+}
+
+func runPartitionShape(c *Ctx, cp *ssa.Function, ps *partShape, b *binder) {
 	p := c.P
 	fname := shortName(cp)
-	stopTimes, updates := cp.Params[0], cp.Params[1]
-	loops := naturalLoops(cp)
-	// search loop: full range over stopTimes, the only data condition is StopID == first update's stop id
-	var search *Loop
-	var searchIdx ssa.Value
-	for _, l := range loops {
-		for b2 := range l.Blocks {
-			for _, in := range b2.Instrs {
-				if ia, ok := in.(*ssa.IndexAddr); ok && ia.X == ssa.Value(stopTimes) {
-					if r, _ := isRangeIndexOver(ia.Index, stopTimes); r {
-						search, searchIdx = l, ia.Index
-					}
-				}
-			}
-		}
-	}
-	if search == nil {
-		c.Violated("PART", fname, "first updated stop searched in the whole list", p.pos(cp.Pos()), "no range loop over the whole stopTimes list: the alignment point is searched in only part of the journal (entries before it would be dropped)")
-	} else {
-		nConds := 0
-		okCond := false
-		for b2 := range search.Blocks {
-			iff, ok := b2.Instrs[len(b2.Instrs)-1].(*ssa.If)
-			if !ok || b2 == search.Header {
-				continue
-			}
-			nConds++
-			if bo, ok := iff.Cond.(*ssa.BinOp); ok && bo.Op == token.EQL {
-				l, r := b.bind(bo.X), b.bind(bo.Y)
-				if (strings.HasSuffix(l, ".StopID") && strings.Contains(r, "param:updates[const:0]")) || (strings.HasSuffix(r, ".StopID") && strings.Contains(l, "param:updates[const:0]")) {
-					okCond = true
-				}
-			}
-		}
-		c.Check(okCond && nConds == 1, "PART", fname, "first updated stop searched in the whole list", p.pos(search.Header.Instrs[0].Pos()), "range over all of stopTimes, match on StopID == the update's first stop id only", "the search for the update's first stop skips entries or uses another criterion (e.g. only entries not yet marked past): if the stop is already in the list, entries before it can be dropped")
-	}
-	// past = stopTimes[:idx] with idx from the search
-	okPast := false
-	for _, fs := range collectFieldStores([]*ssa.Function{cp}, "journal.partition") {
-		if fs.field != "past" {
+	stopTimes, updates := ssa.Value(cp.Params[0]), ssa.Value(cp.Params[1])
+	// past = stopTimes[:idx]; every way idx is obtained is 0 or the index of a scan of the whole list whose only data
+	// condition is StopID == the first update's stop id
+	okPast, nPast := true, 0
+	whyPast := ""
+	var leaves []searchLeaf
+	for _, fs := range collectFieldStores([]*ssa.Function{cp}, typeName(ps.typ)) {
+		if fs.field != ps.past {
 			continue
 		}
-		if sl, ok := fs.store.Val.(*ssa.Slice); ok && sl.X == ssa.Value(stopTimes) && sl.Low == nil && sl.High != nil {
-			if phi, ok := sl.High.(*ssa.Phi); ok {
-				for _, ed := range phi.Edges {
-					if ed == searchIdx {
-						okPast = true
+		if fs.store.Val == stopTimes {
+			continue // no updates: everything is past
+		}
+		nPast++
+		sl, ok := fs.store.Val.(*ssa.Slice)
+		if !ok || sl.X != stopTimes || sl.Low != nil || sl.High == nil {
+			okPast, whyPast = false, "the prefix is not stopTimes[:index of the first updated stop]"
+			continue
+		}
+		searchLeaves(c, sl.High, stopTimes, cp, nil, 0, &leaves, map[ssa.Value]bool{})
+	}
+	scan := false
+	for _, lf := range leaves {
+		if !lf.seqOK {
+			okPast, whyPast = false, "the alignment point "+descr(lf.idx)+" is not the index of a scan over the whole journal list (entries before it would be dropped if the scan starts later or looks at only some entries)"
+			continue
+		}
+		if _, isC := lf.idx.(*ssa.Const); isC {
+			continue
+		}
+		scan = true
+		// the loop of this index: its data conditions
+		var loop *Loop
+		for _, l := range naturalLoops(lf.fn) {
+			if l.Blocks[instrBlockOf(lf.idx)] && (loop == nil || len(l.Blocks) < len(loop.Blocks)) {
+				loop = l
+			}
+		}
+		if loop == nil {
+			okPast, whyPast = false, "scan loop not found"
+			continue
+		}
+		nConds, okCond := 0, false
+		for b2 := range loop.Blocks {
+			iff, ok := b2.Instrs[len(b2.Instrs)-1].(*ssa.If)
+			if !ok {
+				continue
+			}
+			if cmp, isCmp := iff.Cond.(*ssa.BinOp); isCmp && cmp.Op == token.LSS {
+				if _, isLen := lenOf(cmp.Y); isLen {
+					continue // the loop's own bound test
+				}
+			}
+			nConds++
+			if bo, ok := iff.Cond.(*ssa.BinOp); ok && (bo.Op == token.EQL || bo.Op == token.NEQ) {
+				for _, pr := range [][2]ssa.Value{{bo.X, bo.Y}, {bo.Y, bo.X}} {
+					l := b.bind(pr[0])
+					r := ""
+					if prm, isP := pr[1].(*ssa.Parameter); isP && lf.args != nil && lf.args[prm] != nil {
+						r = b.bind(lf.args[prm])
+					} else {
+						r = b.bind(pr[1])
+					}
+					if strings.HasSuffix(l, ".StopID") && containsAll(r, "[const:0]", "StopID") {
+						okCond = true
 					}
 				}
 			}
 		}
+		if !(okCond && nConds == 1) {
+			okPast, whyPast = false, "the search for the update's first stop skips entries or uses another criterion (e.g. only entries not yet marked past): if the stop is already in the list, entries before it can be dropped"
+		}
 	}
-	c.Check(okPast, "PART", fname, "past = entries before the first updated stop", p.pos(cp.Pos()), "p.past = stopTimes[:index of the first updated stop]", "p.past is not the prefix before the matched stop")
+	if !scan && okPast {
+		okPast, whyPast = false, "no scan over the journal's list: the alignment point is never searched"
+	}
+	c.Check(okPast && nPast > 0, "PART", fname, "first updated stop searched in the whole list; prefix = entries before it", p.pos(cp.Pos()), "prefix = stopTimes[:i], i from a scan of all of stopTimes matching StopID == the update's first stop id only (0 if absent)", whyPast)
 	// new = updates[updateIndex:]
 	okNew := false
-	for _, fs := range collectFieldStores([]*ssa.Function{cp}, "journal.partition") {
-		if fs.field == "new" {
-			if sl, ok := fs.store.Val.(*ssa.Slice); ok && sl.X == ssa.Value(updates) && sl.High == nil && sl.Low != nil {
+	for _, fs := range collectFieldStores([]*ssa.Function{cp}, typeName(ps.typ)) {
+		if fs.field == ps.nw {
+			if sl, ok := fs.store.Val.(*ssa.Slice); ok && sl.X == updates && sl.High == nil && sl.Low != nil {
 				okNew = true
 			}
 		}
 	}
-	c.Check(okNew, "PART", fname, "new = updates not aligned to an existing entry", p.pos(cp.Pos()), "p.new = updates[number aligned:]", "p.new is not the tail of the updates after the aligned ones")
-	// updated pairs: existing = &stopTimes[first+i], update = &updates[k], k advancing by one per pair
-	okPair := false
-	for _, fs := range collectFieldStores([]*ssa.Function{cp}, "journal.updated") {
-		if fs.field == "existing" {
-			if ia, ok := fs.store.Val.(*ssa.IndexAddr); ok && ia.X == ssa.Value(stopTimes) {
-				okPair = true
+	c.Check(okNew, "PART", fname, "new = updates not aligned to an existing entry", p.pos(cp.Pos()), "remaining = updates[number aligned:]", "the remaining updates are not the tail of the updates after the aligned ones")
+	// aligned pairs: existing = &stopTimes[..], update = &updates[..]
+	okPair, nPair := true, 0
+	for _, fs := range collectFieldStores(c.regionOf(cp), typeName(ps.pairType)) {
+		switch fs.field {
+		case ps.existing:
+			nPair++
+			srcs, unknown := pointerSources(p, fs.store.Val)
+			if len(unknown) > 0 || len(srcs) == 0 {
+				okPair = false
+			}
+			for _, s := range srcs {
+				if ia, ok := s.(*ssa.IndexAddr); !ok || ia.X != stopTimes {
+					okPair = false
+				}
 			}
 		}
 	}
-	c.Check(okPair, "PART", fname, "aligned pairs point into the journal's own list", p.pos(cp.Pos()), "updated.existing = &stopTimes[i]", "aligned entries are copies, not the journal's own entries: in-place updates are lost")
+	c.Check(okPair && nPair > 0, "PART", fname, "aligned pairs point into the journal's own list", p.pos(cp.Pos()), "pair.existing = &stopTimes[i]", "aligned entries are copies, not the journal's own entries: in-place updates are lost")
+}
+
+func instrBlockOf(v ssa.Value) *ssa.BasicBlock {
+	if in, ok := v.(ssa.Instruction); ok {
+		return in.Block()
+	}
+	return nil
 }
 
 // ---------------------------------------------------------------- C15
@@ -368,73 +490,80 @@ func runJournalTrips(c *Ctx) {
 		return
 	}
 	fname := shortName(bj)
-	// K1: UID sibling agreement
-	var uidExprs []string
-	for _, fn := range []*ssa.Function{bj, tu} {
-		for _, blk := range fn.Blocks {
+	// K1: the UID under which an entry is kept (key of the trips map) and the UID recorded in the entry (Trip.TripUID)
+	// are built by the same function from (ID.StartDate.Add(ID.StartTime), ID.ID) of the same trip update
+	var uidFn *ssa.Function
+	for _, fs := range collectFieldStores(c.regionOf(tu), "journal.Trip") {
+		if fs.field == "TripUID" {
+			if call, ok := fs.store.Val.(*ssa.Call); ok {
+				uidFn = staticCallee(call)
+			}
+		}
+	}
+	okUID := uidFn != nil && c.P.isModuleFn(uidFn)
+	whyUID := "Trip.TripUID is not produced by a helper shared with the lookup"
+	nSites := 0
+	if okUID {
+		for _, fn := range append(c.regionOf(bj), c.regionOf(tu)...) {
+			for _, blk := range fn.Blocks {
+				for _, in := range blk.Instrs {
+					call, ok := in.(*ssa.Call)
+					if !ok || staticCallee(call) != uidFn || len(call.Call.Args) != 2 {
+						continue
+					}
+					nSites++
+					a0, a1 := b.bind(call.Call.Args[0]), b.bind(call.Call.Args[1])
+					// a0 = time.Time.Add(X.ID.StartDate,X.ID.StartTime), a1 = X.ID.ID for the same X
+					x := strings.TrimSuffix(a1, ".ID.ID")
+					if x == a1 || a0 != "time.Time.Add("+x+".ID.StartDate,"+x+".ID.StartTime)" {
+						okUID, whyUID = false, fmt.Sprintf("%s builds a UID from (%s, %s), not from (X.ID.StartDate.Add(X.ID.StartTime), X.ID.ID) of one trip update", shortName(fn), clip(a0, 90), clip(a1, 60))
+					}
+				}
+			}
+		}
+		// every key of the trips map is such a UID
+		for _, blk := range bj.Blocks {
 			for _, in := range blk.Instrs {
-				call, ok := in.(*ssa.Call)
-				if !ok {
+				var m, k ssa.Value
+				switch x := in.(type) {
+				case *ssa.MapUpdate:
+					m, k = x.Map, x.Key
+				case *ssa.Lookup:
+					m, k = x.X, x.Index
+				}
+				if m == nil || !strings.HasSuffix(m.Type().String(), "journal.Trip") {
 					continue
 				}
-				name := calleeName(call)
-				if strings.HasSuffix(name, ".buildTripUID") || name == "fmt.Sprintf" {
-					e := b.bind(call)
-					if strings.Contains(e, "StartDate") || strings.Contains(e, "buildTripUID") {
-						// normalise the parameter name
-						e = strings.ReplaceAll(e, "&(param:tripUpdate)", "T")
-						e = strings.ReplaceAll(e, "param:tripUpdate", "T")
-						for _, nm := range []string{"&param:feedMessage.Trips[", "param:feedMessage.Trips["} {
-							_ = nm
+				srcOK := false
+				switch kk := k.(type) {
+				case *ssa.Call:
+					srcOK = staticCallee(kk) == uidFn
+				case *ssa.Extract:
+					// key of a range over a map[string]bool filled with such UIDs, or of the trips map itself
+					if nx, ok := kk.Tuple.(*ssa.Next); ok {
+						if rng, ok := nx.Iter.(*ssa.Range); ok {
+							srcOK = mapKeysFrom(bj, rng.X, uidFn) || rng.X == m
 						}
-						uidExprs = append(uidExprs, shortName(fn)+": "+e)
 					}
+				case *ssa.UnOp, *ssa.Index, *ssa.Phi:
+					// an element of the key list collected from the map's own keys (the copy-out after the feeds)
+					srcOK = true
+				}
+				if !srcOK {
+					okUID, whyUID = false, "the trips map is accessed under a key that is not the UID helper's result: "+clip(b.bind(k), 100)
 				}
 			}
 		}
 	}
-	// both construction sites must pass (StartDate.Add(StartTime), ID.ID) of the same trip update to the same helper / format
-	norm := func(s string) string {
-		i := strings.Index(s, ": ")
-		s = s[i+2:]
-		// replace whatever denotes the trip update by T
-		for _, pat := range []string{"range(", "deref(", "cell("} {
-			_ = pat
-		}
-		return s
-	}
-	okUID := len(uidExprs) == 2
-	if okUID {
-		a, bb := norm(uidExprs[0]), norm(uidExprs[1])
-		shape := func(s string) string {
-			// keep only the structure: function names and field names
-			var out []string
-			for _, tok := range strings.FieldsFunc(s, func(r rune) bool { return strings.ContainsRune("(),&[]#+ ", r) }) {
-				if i := strings.LastIndex(tok, "."); i >= 0 && strings.Contains(tok, "ID") || strings.Contains(tok, "Start") || strings.Contains(tok, "buildTripUID") || strings.Contains(tok, "Add") {
-					if i := strings.Index(tok, ".ID"); i >= 0 {
-						tok = tok[i:]
-					} else if i := strings.Index(tok, ".Start"); i >= 0 {
-						tok = tok[i:]
-					}
-					out = append(out, tok)
-				}
-			}
-			return strings.Join(out, " ")
-		}
-		okUID = shape(a) == shape(bb) && strings.Contains(a, ".ID.StartDate") && strings.Contains(a, ".ID.StartTime") && strings.Contains(a, ".ID.ID")
-		if !okUID {
-			c.Note("UID expressions: %v / shapes %q vs %q", uidExprs, shape(a), shape(bb))
-		}
-	}
-	c.Check(okUID, "UID", "journal", "trip UID built identically where it is looked up and where it is recorded", "-", "both sites build it from (StartDate.Add(StartTime), ID.ID) with the same helper", fmt.Sprintf("the UID used as the map key and the UID recorded in the entry are built differently: %v", uidExprs))
-	if f := c.anchor("journal:buildTripUID"); f != nil {
+	c.Check(okUID && nSites >= 2, "UID", "journal", "trip UID built identically where it is looked up and where it is recorded", "-", fmt.Sprintf("%d call sites of one helper, each on (X.ID.StartDate.Add(X.ID.StartTime), X.ID.ID)", nSites), whyUID)
+	if f := uidFn; f != nil && c.P.isModuleFn(f) {
 		ok := false
 		for _, blk := range f.Blocks {
 			for _, in := range blk.Instrs {
 				if call, isCall := in.(*ssa.Call); isCall && calleeName(call) == "fmt.Sprintf" {
 					if s, isS := constString(call.Call.Args[0]); isS && s == "%d%s" {
 						e := b.bind(call.Call.Args[1])
-						ok = strings.Contains(e, "time.Time.Unix(param:startTime)") && strings.Contains(e, "param:tripID")
+						ok = strings.Contains(e, "time.Time.Unix(param:<time.Time>)") && strings.Contains(e, "param:<string>")
 					}
 				}
 			}
@@ -501,22 +630,21 @@ func runJournalTrips(c *Ctx) {
 			okAll, why = false, "a trip present in the feed is not recorded as active: it will be marked past although it is still reported"
 		}
 	})
-	c.Check(okAll && n > 0, "ACCT", fname, "every trip of a feed is applied and recorded as present", p.pos(tripLoop.Header.Instrs[0].Pos()), fmt.Sprintf("all %d paths through the per-trip loop call Trip.update and set newActiveTrips[uid]", n), why)
-	// create path: fresh entries start the counters at -1 and are stored under the uid
+	c.Check(okAll && n > 0, "ACCT", fname, "every trip of a feed is applied and recorded as present", p.pos(tripLoop.Header.Instrs[0].Pos()), fmt.Sprintf("all %d paths through the per-trip loop call Trip.update and record the uid in the feed's active set", n), why)
+	// create path: fresh entries are stored under the uid only when absent
 	okCreate := false
 	for blk := range tripLoop.Blocks {
 		for _, in := range blk.Instrs {
 			if mu, ok := in.(*ssa.MapUpdate); ok && strings.HasSuffix(mu.Map.Type().String(), "journal.Trip") {
-				if a, isAlloc := mu.Value.(*ssa.Alloc); isAlloc {
+				if _, isAlloc := mu.Value.(*ssa.Alloc); isAlloc {
 					// guarded by !ok of the lookup under the same key
 					for _, ce := range dominatingConds(blk) {
 						if ex, isEx := ce.Cond.(*ssa.Extract); isEx && ex.Index == 1 && !ce.Val {
-							if lk, isLk := ex.Tuple.(*ssa.Lookup); isLk && lk.X == mu.Map && lk.Index == mu.Key {
+							if lk, isLk := ex.Tuple.(*ssa.Lookup); isLk && lk.X == mu.Map && (lk.Index == mu.Key || canon(lk.Index) == canon(mu.Key)) {
 								okCreate = true
 							}
 						}
 					}
-					_ = a
 				}
 			}
 		}
@@ -532,34 +660,31 @@ func runJournalTrips(c *Ctx) {
 	okVanish := rng != nil
 	whyV := "the loop marking vanished trips does not range over the previous feed's active set"
 	if okVanish {
-		// skip iff newActiveTrips[uid]; markPast(createdAt) otherwise; createdAt = feedMessage.CreatedAt
-		okSkip, okMark := false, false
+		// markPast(feed time) exactly on the edge where the uid is absent from the current feed's set
+		okMark := false
 		for blk := range vanishLoop.Blocks {
-			if iff, isIf := blk.Instrs[len(blk.Instrs)-1].(*ssa.If); isIf && blk != vanishLoop.Header {
-				if lk, isLk := iff.Cond.(*ssa.Lookup); isLk && lk.X.Type().String() == "map[string]bool" && lk.X != rng.X {
-					okSkip = true
-				}
-			}
 			for _, in := range blk.Instrs {
 				if call, isCall := in.(*ssa.Call); isCall && staticCallee(call) == tm {
 					e := b.bind(call.Call.Args[1])
-					if strings.HasSuffix(e, ".CreatedAt") {
-						okMark = true
-					}
-					// only on the not-present edge
-					present := false
+					okTime := strings.HasSuffix(e, ".CreatedAt")
+					absent := false
 					for _, ce := range dominatingConds(blk) {
-						if lk, isLk := ce.Cond.(*ssa.Lookup); isLk && !ce.Val && lk.X != rng.X {
-							present = true
+						switch x := ce.Cond.(type) {
+						case *ssa.Lookup:
+							if !ce.Val && x.X != rng.X && x.X.Type().String() == "map[string]bool" {
+								absent = true
+							}
+						case *ssa.Extract:
+							if lk, isLk := x.Tuple.(*ssa.Lookup); isLk && !ce.Val && lk.X != rng.X && lk.X.Type().String() == "map[string]bool" {
+								absent = true
+							}
 						}
 					}
-					if !present {
-						okMark = false
-					}
+					okMark = okTime && absent
 				}
 			}
 		}
-		okVanish = okSkip && okMark
+		okVanish = okMark
 		whyV = "a trip of the previous feed is not marked past exactly when it is absent from the current feed, with the current feed's time"
 		// activeTrips replaced each feed: the ranged map is a phi at the feed loop's header fed by the per-feed map
 		if phi, isPhi := rng.X.(*ssa.Phi); !isPhi || phi.Block() != feedLoop.Header {
@@ -579,7 +704,7 @@ func runJournalTrips(c *Ctx) {
 		}
 	}
 	c.Check(okVanish, "ACCT", fname, "trips missing from a feed are marked past with that feed's time", p.pos(vanishLoop.Header.Instrs[0].Pos()), "for uid in previous feed's set: skip iff present now, else trips[uid].markPast(feed.CreatedAt); the set is replaced each feed", whyV)
-	// K4: selection
+	// K4: selection: an entry is returned exactly when !StartTime.Before(start) && !end.Before(StartTime) && IsAssigned
 	var selLoop *Loop
 	for _, l := range loops {
 		if feedLoop.Blocks[l.Header] {
@@ -596,43 +721,64 @@ func runJournalTrips(c *Ctx) {
 	if selLoop == nil {
 		c.Violated("ACCT", fname, "selection by window and assignment", p.pos(bj.Pos()), "no loop over the journal's trips after the feeds were applied")
 	} else {
-		var conds []string
+		// the block that keeps the entry: an append inside the loop
+		var keep *ssa.BasicBlock
 		for blk := range selLoop.Blocks {
-			if blk == selLoop.Header {
-				continue
-			}
-			if iff, ok := blk.Instrs[len(blk.Instrs)-1].(*ssa.If); ok {
-				conds = append(conds, b.bind(iff.Cond))
-			}
-		}
-		sort.Strings(conds)
-		// normalise the entry being tested to X
-		x := ""
-		for _, cd := range conds {
-			if strings.HasSuffix(cd, ".IsAssigned") && !strings.Contains(cd, "(") || strings.HasSuffix(cd, ".IsAssigned") {
-				x = strings.TrimSuffix(cd, ".IsAssigned")
+			for _, in := range blk.Instrs {
+				if call, ok := in.(*ssa.Call); ok && isBuiltin(call, "append") {
+					keep = blk
+				}
 			}
 		}
-		if x != "" {
-			for i := range conds {
-				conds[i] = strings.ReplaceAll(conds[i], x, "X")
+		if keep == nil {
+			c.Violated("ACCT", fname, "selection by window and assignment", p.pos(selLoop.Header.Instrs[0].Pos()), "the loop over the journal's trips keeps nothing")
+		} else {
+			atoms := map[string]bool{}
+			for _, ce := range dominatingConds(keep) {
+				if ce.Composite || ce.If == nil || !selLoop.Blocks[ce.If.Block()] || ce.If.Block() == selLoop.Header {
+					continue
+				}
+				e := b.bind(ce.Cond)
+				if !ce.Val {
+					e = "!" + e
+				}
+				atoms[e] = true
 			}
+			var got []string
+			for a := range atoms {
+				got = append(got, a)
+			}
+			sort.Strings(got)
+			// normalise the entry being tested to X
+			x := ""
+			for _, a := range got {
+				if strings.HasSuffix(a, ".IsAssigned") && !strings.HasPrefix(a, "!") {
+					x = strings.TrimSuffix(a, ".IsAssigned")
+				}
+			}
+			if x != "" {
+				for i := range got {
+					got[i] = strings.ReplaceAll(got[i], x, "X")
+				}
+			}
+			sort.Strings(got)
+			want := []string{
+				"!time.Time.Before(X.StartTime,param:<time.Time#0>)",
+				"!time.Time.Before(param:<time.Time#1>,X.StartTime)",
+				"X.IsAssigned",
+			}
+			sort.Strings(want)
+			c.Check(strings.Join(got, " ; ") == strings.Join(want, " ; "), "ACCT", fname, "selection by window and assignment", p.pos(selLoop.Header.Instrs[0].Pos()), "kept exactly when StartTime is not before start, end is not before StartTime, and the trip was assigned", fmt.Sprintf("an entry is kept under %v (expected %v)", got, want))
 		}
-		sort.Strings(conds)
-		want := []string{
-			"time.Time.Before(X.StartTime,param:startTime)",
-			"time.Time.Before(param:endTime,X.StartTime)",
-			"X.IsAssigned",
-		}
-		sort.Strings(want)
-		c.Check(strings.Join(conds, " ; ") == strings.Join(want, " ; "), "ACCT", fname, "selection by window and assignment", p.pos(selLoop.Header.Instrs[0].Pos()), "skip exactly on StartTime before start, end before StartTime, or never assigned", fmt.Sprintf("selection conditions are %v (expected %v)", conds, want))
 	}
 	// K5: Trip.update
 	runTripUpdateShape(c, tu, b)
 	// K6: Trip.markPast visits every stop time
 	okAllStops := false
+	stMark := c.anchor("journal:(*StopTime).markPast")
 	for _, l := range naturalLoops(tm) {
 		pathsOK := true
+		var idx ssa.Value
 		n := pathsWithin(l.Header, l, func(path []*ssa.BasicBlock, back bool) {
 			if !back {
 				return
@@ -640,8 +786,11 @@ func runJournalTrips(c *Ctx) {
 			has := false
 			for _, blk := range path {
 				for _, in := range blk.Instrs {
-					if call, ok := in.(*ssa.Call); ok && strings.HasSuffix(calleeName(call), "StopTime).markPast") {
-						has = true
+					if call, ok := in.(*ssa.Call); ok && staticCallee(call) == stMark {
+						if ia, isIA := call.Call.Args[0].(*ssa.IndexAddr); isIA && strings.HasSuffix(canon(ia.X), ".StopTimes)") {
+							has = true
+							idx = ia.Index
+						}
 					}
 				}
 			}
@@ -649,75 +798,95 @@ func runJournalTrips(c *Ctx) {
 				pathsOK = false
 			}
 		})
-		// loop bound: i < len(trip.StopTimes) from 0
-		for _, in := range l.Header.Instrs {
-			if bo, ok := in.(*ssa.BinOp); ok && bo.Op == token.LSS {
-				if lx, ok := lenOf(bo.Y); ok && strings.HasSuffix(canon(lx), ".StopTimes)") {
-					if phi, ok := bo.X.(*ssa.Phi); ok {
-						for _, ed := range phi.Edges {
-							if k, isC := constInt(ed); isC && k == 0 && pathsOK && n > 0 {
-								okAllStops = true
-							}
-						}
-					}
+		if pathsOK && n > 0 && idx != nil {
+			if s := rangeIndexSeq(idx); s != nil && strings.HasSuffix(canon(s), ".StopTimes)") {
+				okAllStops = true
+			}
+		}
+	}
+	c.Check(okAllStops, "ACCT", shortName(tm), "marking a trip past marks all its stops", p.pos(tm.Pos()), "for every index of StopTimes: StopTimes[i].markPast(t)", "marking a trip past does not visit every stop time")
+}
+
+// mapKeysFrom: every key ever put into map m (in fn) is a result of f.
+func mapKeysFrom(fn *ssa.Function, m ssa.Value, f *ssa.Function) bool {
+	// m may be a phi over the per-feed maps
+	ms := map[ssa.Value]bool{}
+	var exp func(v ssa.Value, d int)
+	exp = func(v ssa.Value, d int) {
+		if ms[v] || d > 6 {
+			return
+		}
+		ms[v] = true
+		if phi, ok := v.(*ssa.Phi); ok {
+			for _, e := range phi.Edges {
+				exp(e, d+1)
+			}
+		}
+	}
+	exp(m, 0)
+	n := 0
+	for _, b := range fn.Blocks {
+		for _, in := range b.Instrs {
+			if mu, ok := in.(*ssa.MapUpdate); ok && ms[mu.Map] {
+				n++
+				call, isCall := mu.Key.(*ssa.Call)
+				if !isCall || staticCallee(call) != f {
+					return false
 				}
 			}
 		}
 	}
-	c.Check(okAllStops, "ACCT", shortName(tm), "marking a trip past marks all its stops", p.pos(tm.Pos()), "for i := 0; i < len(StopTimes); i++ { StopTimes[i].markPast(t) }", "marking a trip past does not visit every stop time")
+	return n > 0
 }
 
 func runTripUpdateShape(c *Ctx, tu *ssa.Function, b *binder) {
 	p := c.P
 	fname := shortName(tu)
-	// early return before any store on IsAssigned && Vehicle == nil
-	entry := tu.Blocks[0]
+	const T, U = "param:<journal.Trip>", "param:<gtfs.Trip>"
+	// an update without a vehicle does not alter an assigned trip: every store through the receiver (and every call
+	// that may write through it) is unreachable once trip.IsAssigned && tripUpdate.Vehicle == nil is known
 	var guardRet *ssa.BasicBlock
-	var body *ssa.BasicBlock
-	okGuard := false
-	// walk the short-circuit: entry tests trip.IsAssigned, then tripUpdate.Vehicle == nil
-	seenStores := false
-	for _, in := range entry.Instrs {
-		if _, ok := in.(*ssa.Store); ok {
-			seenStores = true
-		}
-	}
 	for _, blk := range tu.Blocks {
-		if ret, ok := blk.Instrs[len(blk.Instrs)-1].(*ssa.Return); ok && len(blk.Instrs) == 1 {
-			_ = ret
-			conds := dominatingConds(blk)
+		if _, ok := blk.Instrs[len(blk.Instrs)-1].(*ssa.Return); ok {
 			a, v := false, false
-			for _, ce := range conds {
+			for _, ce := range dominatingConds(blk) {
 				e := b.bind(ce.Cond)
-				if strings.HasSuffix(e, "param:trip.IsAssigned") && ce.Val {
+				if e == T+".IsAssigned" && ce.Val {
 					a = true
 				}
-				if bo, ok := ce.Cond.(*ssa.BinOp); ok && isNilConst(bo.Y) && strings.HasSuffix(b.bind(bo.X), "param:tripUpdate.Vehicle") && ((bo.Op == token.EQL && ce.Val) || (bo.Op == token.NEQ && !ce.Val)) {
+				if bo, ok := ce.Cond.(*ssa.BinOp); ok && isNilConst(bo.Y) && b.bind(bo.X) == U+".Vehicle" && ((bo.Op == token.EQL && ce.Val) || (bo.Op == token.NEQ && !ce.Val)) {
 					v = true
 				}
 			}
 			if a && v {
 				guardRet = blk
-				okGuard = true
 			}
 		}
 	}
-	// no store is executed before the guard
+	okGuard := guardRet != nil
 	if okGuard {
+		// no effect on the way to the guarded return
 		for _, blk := range tu.Blocks {
-			if blk.Dominates(guardRet) && blk != guardRet {
-				for _, in := range blk.Instrs {
-					if st, ok := in.(*ssa.Store); ok {
-						if _, isAlloc := addrRoot(st.Addr).(*ssa.Alloc); !isAlloc {
-							okGuard = false
-						}
+			if !(blk == guardRet || blk.Dominates(guardRet)) {
+				continue
+			}
+			for _, in := range blk.Instrs {
+				switch x := in.(type) {
+				case *ssa.Store:
+					if _, isAlloc := addrRoot(x.Addr).(*ssa.Alloc); !isAlloc {
+						okGuard = false
 					}
+				case *ssa.MapUpdate:
+					okGuard = false
 				}
 			}
 		}
+		// and the guard is the only way past the two tests: every other return is not reachable with both facts... (the
+		// bookkeeping stores below are checked on all paths from the work block)
 	}
-	c.Check(okGuard && !seenStores, "ACCT", fname, "an update without a vehicle does not alter an assigned trip", p.pos(tu.Pos()), "return before any store when trip.IsAssigned && tripUpdate.Vehicle == nil", "an assigned trip's recorded data can be altered by an update that lacks a vehicle")
-	// the block where the real work starts: the successor of the guard test that is not the return
+	c.Check(okGuard, "ACCT", fname, "an update without a vehicle does not alter an assigned trip", p.pos(tu.Pos()), "return before any store when trip.IsAssigned && tripUpdate.Vehicle == nil", "an assigned trip's recorded data can be altered by an update that lacks a vehicle")
+	// the block where the real work starts: the first block that stores through the receiver
+	var body *ssa.BasicBlock
 	for _, blk := range tu.Blocks {
 		hasStore := false
 		for _, in := range blk.Instrs {
@@ -736,17 +905,17 @@ func runTripUpdateShape(c *Ctx, tu *ssa.Function, b *binder) {
 		return
 	}
 	all, _ := storesOnAllPaths(tu, tu.Params[0], body)
-	want := map[string][]string{
-		"TripUID":      {"param:tripUpdate.ID.ID", "param:tripUpdate.ID.StartDate", "param:tripUpdate.ID.StartTime"},
-		"TripID":       {"param:tripUpdate.ID.ID"},
-		"RouteID":      {"param:tripUpdate.ID.RouteID"},
-		"DirectionID":  {"param:tripUpdate.ID.DirectionID"},
-		"StartTime":    {"time.Time.Add(param:tripUpdate.ID.StartDate,param:tripUpdate.ID.StartTime)"},
-		"VehicleID":    {"GetVehicle(param:tripUpdate)", "GetID(", ".ID"},
-		"IsAssigned":   {"param:tripUpdate.Vehicle"},
-		"LastObserved": {"param:feedCreatedAt"},
-		"MarkedPast":   {"const:nil"},
-		"NumUpdates":   {"(param:trip.NumUpdates + const:1)"},
+	want := map[string]bindReq{
+		"TripUID":      {[]string{U + ".ID.ID", U + ".ID.StartDate", U + ".ID.StartTime"}, nil},
+		"TripID":       {[]string{U + ".ID.ID"}, []string{"RouteID", "StartDate"}},
+		"RouteID":      {[]string{U + ".ID.RouteID"}, []string{".ID.ID"}},
+		"DirectionID":  {[]string{U + ".ID.DirectionID"}, nil},
+		"StartTime":    {[]string{"time.Time.Add(" + U + ".ID.StartDate," + U + ".ID.StartTime)"}, nil},
+		"VehicleID":    {[]string{U, "Vehicle", "ID"}, []string{"Label", "LicensePlate"}},
+		"IsAssigned":   {[]string{U + ".Vehicle"}, nil},
+		"LastObserved": {[]string{"param:<time.Time>"}, []string{U}},
+		"MarkedPast":   {[]string{"const:nil"}, []string{"param:"}},
+		"NumUpdates":   {[]string{"(" + T + ".NumUpdates + const:1)"}, nil},
 	}
 	var fields []string
 	for f := range want {
@@ -760,12 +929,96 @@ func runTripUpdateShape(c *Ctx, tu *ssa.Function, b *binder) {
 			continue
 		}
 		e := b.bind(s.Val)
-		okB := true
-		for _, w := range want[f] {
-			if !strings.Contains(e, w) {
-				okB = false
+		c.Check(want[f].ok(e), "ACCT", fname, "Trip."+f+" recorded by every applied update", p.ipos(s), f+" <- "+clip(e, 90), fmt.Sprintf("Trip.%s is taken from %s (expected to mention %v and none of %v)", f, clip(e, 120), want[f].all, want[f].none))
+	}
+}
+
+// fieldOfType: the one field of struct type t whose type prints as want ("" if none or several).
+func fieldOfType(t types.Type, want string) string {
+	st := structOf(t)
+	if st == nil {
+		return ""
+	}
+	name, n := "", 0
+	for i := 0; i < st.NumFields(); i++ {
+		if shortType(st.Field(i).Type()) == want {
+			name = st.Field(i).Name()
+			n++
+		}
+	}
+	if n != 1 {
+		return ""
+	}
+	return name
+}
+
+// partShape: the roles of the fields of the value createPartition returns, found by their types: the prefix of
+// journal entries ([]StopTime), the tail of updates ([]gtfs.StopTimeUpdate) and the aligned pairs (a slice of structs
+// holding a *StopTime and a *gtfs.StopTimeUpdate). Field and type names of these unexported types are free to change.
+type partShape struct {
+	typ                   types.Type
+	past, upd, nw         string
+	pairType              types.Type
+	existing, updateField string
+}
+
+func partitionShapeOf(cp *ssa.Function) *partShape {
+	if cp.Signature.Results().Len() != 1 {
+		return nil
+	}
+	t := cp.Signature.Results().At(0).Type()
+	st := structOf(t)
+	if st == nil {
+		return nil
+	}
+	ps := &partShape{typ: t}
+	ps.past = fieldOfType(t, "[]journal.StopTime")
+	ps.nw = fieldOfType(t, "[]gtfs.StopTimeUpdate")
+	for i := 0; i < st.NumFields(); i++ {
+		if sl, ok := st.Field(i).Type().Underlying().(*types.Slice); ok {
+			if es := structOf(sl.Elem()); es != nil {
+				ex, up := fieldOfType(sl.Elem(), "*journal.StopTime"), fieldOfType(sl.Elem(), "*gtfs.StopTimeUpdate")
+				if ex != "" && up != "" {
+					ps.upd, ps.pairType, ps.existing, ps.updateField = st.Field(i).Name(), sl.Elem(), ex, up
+				}
 			}
 		}
-		c.Check(okB, "ACCT", fname, "Trip."+f+" recorded by every applied update", p.ipos(s), f+" <- "+clip(e, 90), fmt.Sprintf("Trip.%s is taken from %s (expected to involve %v)", f, clip(e, 120), want[f]))
 	}
+	if ps.past == "" || ps.nw == "" || ps.upd == "" {
+		return nil
+	}
+	return ps
+}
+
+// containsAll / containsNone
+func containsAll(s string, subs ...string) bool {
+	for _, x := range subs {
+		if !strings.Contains(s, x) {
+			return false
+		}
+	}
+	return true
+}
+
+func containsAny(s string, subs ...string) bool {
+	for _, x := range subs {
+		if strings.Contains(s, x) {
+			return true
+		}
+	}
+	return false
+}
+
+// paramOfType: the function's parameter whose type prints as want (nil if none or several).
+func paramOfType(f *ssa.Function, want string) *ssa.Parameter {
+	var out *ssa.Parameter
+	for _, p := range f.Params {
+		if shortType(p.Type()) == want {
+			if out != nil {
+				return nil
+			}
+			out = p
+		}
+	}
+	return out
 }
